@@ -2,7 +2,7 @@
 """Per-wave statistics of the seeded changes (from seeded/*/meta.json), for DESIGN.md §10.4."""
 import json, glob, os, collections
 ROOT = os.path.dirname(os.path.dirname(os.path.abspath(__file__)))
-wave = {'A': 1, 'B': 1, 'C': 2, 'D': 2, 'E': 3, 'F': 3, 'G': 4, 'H': 4, 'I': 5, 'J': 5, 'K': 6, 'L': 6, 'M': 7, 'N': 7, 'O': 8, 'P': 8, 'Q': 9, 'R': 9, 'S': 10, 'T': 10}
+wave = {'A': 1, 'B': 1, 'C': 2, 'D': 2, 'E': 3, 'F': 3, 'G': 4, 'H': 4, 'I': 5, 'J': 5, 'K': 6, 'L': 6, 'M': 7, 'N': 7, 'O': 8, 'P': 8, 'Q': 9, 'R': 9, 'S': 10, 'T': 10, 'U': 11, 'V': 11, 'W': 11, 'X': 11}
 tot = collections.Counter(); first = collections.Counter(); conf = collections.Counter(); now = collections.Counter(); sib = collections.Counter(); still = []
 for p in sorted(glob.glob(os.path.join(ROOT, 'seeded', '*', 'meta.json'))):
     m = json.load(open(p)); sid = m['id']; w = wave[sid.split('-')[1]]
@@ -17,7 +17,7 @@ for p in sorted(glob.glob(os.path.join(ROOT, 'seeded', '*', 'meta.json'))):
     elif m.get('confirmed_by_coordinator'): still.append(sid)
 print("| letters | changes | confirmed | caught at first run | caught now by own check | only by a sibling check |")
 print("|---|---|---|---|---|---|")
-L = {1: 'A, B', 2: 'C, D', 3: 'E, F', 4: 'G, H', 5: 'I, J', 6: 'K, L', 7: 'M, N', 8: 'O, P', 9: 'Q, R', 10: 'S, T'}
+L = {1: 'A, B', 2: 'C, D', 3: 'E, F', 4: 'G, H', 5: 'I, J', 6: 'K, L', 7: 'M, N', 8: 'O, P', 9: 'Q, R', 10: 'S, T', 11: 'U, V, W, X'}
 for w in sorted(tot):
     print("| %s | %d | %d | %d | %d | %d |" % (L[w], tot[w], conf[w], first[w], now[w], sib[w]))
 print("| all | %d | %d | %d | %d | %d |" % (sum(tot.values()), sum(conf.values()), sum(first.values()), sum(now.values()), sum(sib.values())))
